@@ -14,6 +14,9 @@ def run(ctx):
     c15v.run_value(ctx, want, which=("C15",))
     # engine part: which value a reply carries, refusals change nothing, queued grants (M-ENGINE stage 2 vs the real LockDB)
     engine2_common.run_c15_engine(ctx)
+    # the text surface: SET / GETSET then GET through the real text handlers read back what was written (reply writers incl. the empty string)
+    from props import c14t
+    c14t.run_texthandlers(ctx, prefixes=("C15:",), part="register")
     ctx.assumptions.append("value cell and its nine operations: M-VALUE vs the real ProcessLockData byte for byte; which value a reply carries / refusals / queued grants: "
                            "M-ENGINE stage 2 (hand-written, tied by the E-seq differential with value frames on the real LockDB and cross-checked against stage 1 through abs); "
                            "the composition converter→engine→writer of the Redis-style commands is covered by the text-protocol checks (C14/C13), not by a theorem here")
